@@ -12,6 +12,7 @@
 #define _GNU_SOURCE
 #include "vpeer.h"
 #include "vs.h"
+#include <pthread.h>
 #include <stdlib.h>
 #include <string.h>
 #include <unistd.h>
@@ -935,6 +936,112 @@ run_bt(void *arg)
 	vh_fini();
 }
 
+// ---- schedules on the raw endpoints that devices are made of ------------------------------------------------
+// (a) a surveyor connects to a raw RESPONDENT and sends at once: whatever the order in which the new pipe's
+//     start and its first receive completion run, the survey carries the pipe's id as its first hop, so the
+//     echoed response finds its way back.
+// (b) two replies arrive back to back on one raw REQ pipe (what a device serving two requesters sees): both
+//     reach the application intact and in order.
+static nng_socket rw_x, rw_s;
+static int        rw_rv;
+static void *
+rw_dial_send(void *a)
+{
+	(void) a;
+	rw_rv = nng_dial(rw_s, "inproc://c13rw", NULL, 0);
+	if (rw_rv == 0) {
+		nng_msg *m;
+		if (nng_msg_alloc(&m, 0) != 0 || nng_msg_append(m, "SV", 2) != 0)
+			vs_fail("harness:rw", "msg alloc");
+		rw_rv = nng_sendmsg(rw_s, m, 0);
+		if (rw_rv != 0)
+			nng_msg_free(m);
+	}
+	return NULL;
+}
+static void
+run_rawrace(void *arg)
+{
+	int kind = (int) (intptr_t) arg;
+	vh_init(0);
+	if (kind == 0) {
+		VH_OK(nng_respondent0_open_raw(&rw_x));
+		VH_OK(nng_surveyor0_open(&rw_s));
+		VH_OK(nng_socket_set_ms(rw_s, NNG_OPT_SURVEYOR_SURVEYTIME, 1000));
+		VH_OK(nng_listen(rw_x, "inproc://c13rw", NULL, 0));
+		vs_settle();
+		pthread_t t;
+		vs_window(1);
+		pthread_create(&t, NULL, rw_dial_send, NULL);
+		pthread_join(t, NULL);
+		vs_settle();
+		vs_window(0);
+		if (rw_rv != 0)
+			vs_fail("harness:rw", "dial/send: %s", nng_strerror(rw_rv));
+		nng_msg *m = NULL;
+		if (nng_recvmsg(rw_x, &m, NNG_FLAG_NONBLOCK) != 0)
+			vs_fail("C13:survey-lost", "the survey sent right after connecting never reached "
+			                           "the raw respondent");
+		if (nng_msg_header_len(m) != 8)
+			vs_fail("C13:bt:header", "raw respondent got a %zu byte header",
+			    nng_msg_header_len(m));
+		uint32_t hop = vp_get32(nng_msg_header(m));
+		// echo it: the header routes it back
+		if (nng_sendmsg(rw_x, m, NNG_FLAG_NONBLOCK) != 0) {
+			nng_msg_free(m);
+			vs_fail("C13:response-lost", "raw respondent could not send the response");
+		}
+		vs_settle();
+		vs_nontrivial();
+		if (nng_recvmsg(rw_s, &m, NNG_FLAG_NONBLOCK) != 0)
+			vs_fail("C13:response-lost",
+			    "a survey sent immediately after connecting was forwarded with first hop "
+			    "0x%08x; the echoed response never got back to the surveyor",
+			    hop);
+		if (nng_msg_len(m) != 2 || memcmp(nng_msg_body(m), "SV", 2) != 0)
+			vs_fail("C13:response-lost", "response body altered");
+		nng_msg_free(m);
+		vs_outcome("first-survey hop=%s", hop ? "pipe" : "zero");
+		nng_socket_close(rw_s);
+		nng_socket_close(rw_x);
+	} else {
+		VH_OK(nng_req0_open_raw(&rw_x));
+		int fd = vp_connect_raw(rw_x, SP_REP, NULL);
+		if (fd < 0)
+			vs_fail("harness:setup", "raw replier");
+		// two replies in one segment
+		uint8_t  wire[64];
+		uint8_t  id1[4] = { 0x80, 0, 0, 1 }, id2[4] = { 0x80, 0, 0, 2 };
+		size_t   n      = vp_frame(wire, id1, 4, "r1", 2, 0);
+		n += vp_frame(wire + n, id2, 4, "r2", 2, 0);
+		vs_window(1);
+		if (vp_write_all(fd, wire, n) != 0)
+			vs_fail("harness:peer", "raw write");
+		vs_settle();
+		vs_window(0);
+		vs_nontrivial();
+		for (int i = 0; i < 2; i++) {
+			nng_msg *m = NULL;
+			if (nng_recvmsg(rw_x, &m, NNG_FLAG_NONBLOCK) != 0)
+				vs_fail("C13:reply-lost",
+				    "two replies arrived back to back on one raw REQ pipe; reply %d never "
+				    "reached the socket",
+				    i + 1);
+			if (nng_msg_len(m) != 2 || ((char *) nng_msg_body(m))[0] != 'r' ||
+			    ((char *) nng_msg_body(m))[1] != '1' + i || nng_msg_header_len(m) != 4 ||
+			    memcmp(nng_msg_header(m), i ? id2 : id1, 4) != 0)
+				vs_fail("C13:reply-altered", "reply %d came up as %zu+%zu bytes '%.2s'", i + 1,
+				    nng_msg_header_len(m), nng_msg_len(m), (char *) nng_msg_body(m));
+			nng_msg_free(m);
+			vs_settle();
+		}
+		vs_outcome("two-replies ok");
+		close(fd);
+		nng_socket_close(rw_x);
+	}
+	vh_fini();
+}
+
 static void
 explore_b(const char *name, void (*fn)(void *), void *arg, int preempt, int sw,
     int total, double deadline)
@@ -989,6 +1096,8 @@ main(int argc, char **argv)
 		                     "requests and around each reply; preempt<=%d switch<=%d total<=%d",
 		    sp, ssw, st);
 	}
+	explore_b("race-first-survey-after-connect", run_rawrace, (void *) 0, 1, 2, T ? 3 : 2, 60);
+	explore_b("race-two-replies-one-pipe", run_rawrace, (void *) 1, T ? 2 : 1, 2, 2, 60);
 	vx_note("chains",
 	    "reqrep %d, survey %d configurations: k in 0..TTL+2 (survey <= %d) x TTL "
 	    "%s x {2 sockets, 2 contexts} + one socket with its own TTL at every "
